@@ -33,20 +33,52 @@ def recase(s, rng):
     return "".join(c.upper() if rng.chance(1, 2) else c.lower() for c in s)
 
 
-def mk_case(n, parents, uses, rng, rev, noclass=False, kinds=KINDS, headerless=()):
-    """parents[i] in {None, 0..n-1, n (= a class that does not exist)}; uses: i -> [j…] (j = i: the file uses itself);
+GHOSTS = ["aGhost", "aNoFile", "aTypo"]      # entities that have no file in the workspace
+DRESS = "bcalmrsg"                              # wsutil::render: what stands above the header / how the file is encoded (no `k` here)
+
+
+def dress(rng, p=(1, 4)):
+    if not rng.chance(*p):
+        return ""
+    if rng.chance(1, 2):
+        return DRESS[rng.below(len(DRESS))]
+    return "".join(c for c in DRESS if rng.chance(1, 3))
+
+
+def with_ghosts(us, rng, p=(1, 5)):
+    """a uses list with entities that have no file put in at any position (first, middle, last)"""
+    if not rng.chance(*p):
+        return us
+    us = list(us)
+    for _ in range(1 + rng.below(2)):
+        us.insert(rng.below(len(us) + 1), recase(GHOSTS[rng.below(len(GHOSTS))], rng))
+    return us
+
+
+def mk_case(n, parents, uses, rng, rev, noclass=False, kinds=KINDS, headerless=(), extras=True):
+    """parents[i] in {None, 0..n-1, n (= a class that does not exist)}; uses: i -> [j…] (j = i: the file uses itself;
+    j >= n: an entity WITHOUT a file, GHOSTS[j - n]);
     headerless: the files that have no `class` line (flag n) — they keep their uses list, members, unknown types
-    and bodies (a field of an unknown type, flag u, is what sends a look-up through the uses list)"""
+    and bodies (a field of an unknown type, flag u, is what sends a look-up through the uses list);
+    extras: some uses lists also get entities without a file at random positions, some files a dressed header / another encoding"""
     fs = []
     for i in range(n):
         p = parents[i]
         par = "-" if p is None else ("aMissing" if p == n else recase(NAMES[p], rng))
         mem = [recase(m, rng) for m in ["m1", "m2", "f1"] if rng.chance(1, 2)]
-        us = [recase(NAMES[j], rng) for j in uses.get(i, [])]
+        us = [recase(NAMES[j] if j < n else GHOSTS[(j - n) % len(GHOSTS)], rng) for j in uses.get(i, [])]
+        if extras:
+            us = with_ghosts(us, rng)
         if i in headerless:
             flags = "n" + ("x" if rng.chance(1, 2) else "") + ("u" if rng.chance(4, 5) else "")
         else:
             flags = ("x" if (us or rng.chance(1, 2)) else "") + ("u" if rng.chance(2, 5) else "")
+        if extras:
+            if i in headerless and rng.chance(1, 8):
+                flags = "ne"          # an empty file: nothing, or only what the dressing puts there (blank lines, comments, a byte order mark)
+            elif i not in headerless and rng.chance(1, 8):
+                flags += "d"          # `module <stem>`: a header without parent
+            flags += dress(rng)
         fs.append("%s:%s:%s:%s:%s" % (NAMES[i], par, "+".join(mem) or "-", "+".join(us) or "-", flags or "-"))
     if noclass:
         fs.append("aNoClass:-:-:-:n")
@@ -105,6 +137,71 @@ def gen_headerless(ctx, cases):
             ctx.count("header-less: uses-graphs n=3 + a class using them")
 
 
+def gen_ghosts(ctx, cases):
+    """uses lists that name entities WITHOUT a file, at every position, with unknown types / bodies with unresolvable names
+    (flags u, x: what sends a look-up through the whole uses list), all request kinds"""
+    rng = ctx.rng
+    quick = ctx.tier == "quick"
+    G, H = "aGhost", "aNoFile"
+    # deterministic core (no rng): one user file (class or header-less) x every placement of one or two ghosts among
+    # 0..2 real entities x flags, the requests on the user first / last
+    lists = [[G], [G, H], ["aQb", G], [G, "aQb"], ["aQb", G, "aQc"], [G, "aQb", "aQc"], ["aQb", "aQc", G],
+             [G, "aQb", H], ["aQa", G], [G, "aQa"], ["aghost", "AGHOST"]]
+    for us in lists:
+        for fl in ("x", "u", "xu", "-", "nx", "nu", "nxu"):
+            for par in ("-", "aQb", "aMissing"):
+                if par != "-" and (fl.startswith("n") or fl == "-"):
+                    continue
+                fs = ["aQa:%s:m1+f1:%s:%s" % (par, "+".join(us), fl),
+                      "aQb:-:m1:%s:x" % ("aQa" if "aQb" in us else "-"),
+                      "aQc:aQb:f1:%s:u" % (G if len(us) > 2 else "-")]
+                for order in ((0, 1, 2), (2, 1, 0)):
+                    reqs = ",".join("%s@%d" % (k, i) for i in order for k in KINDS)
+                    cases.append("lock %s %s" % (",".join(fs), reqs))
+                    ctx.count("uses of entities without a file: deterministic placements x flags x parents x orders")
+    # random: 2..4 files, every file's uses list drawn over real entities (incl. itself) and ghosts
+    for _ in range(150 if quick else 6000):
+        n = 2 + rng.below(3)
+        uses = {}
+        for i in range(n):
+            k = rng.below(4)
+            uses[i] = [rng.below(n + 3) for _ in range(k)]
+        if not any(j >= n for v in uses.values() for j in v):
+            uses[rng.below(n)].insert(0, n + rng.below(3))
+        ps = tuple(None if rng.chance(1, 2) else rng.below(n + 1) for _ in range(n))
+        hl = tuple(i for i in range(n) if rng.chance(1, 4))
+        cases.append(mk_case(n, ps, uses, rng, rng.chance(1, 2), headerless=hl))
+        ctx.count("uses of entities without a file: random workspaces")
+
+
+def gen_odd_files(ctx, cases):
+    """deterministic: empty files (zero bytes / a byte order mark / blank lines / comments only) and modules as the used entity,
+    the parent and the user of classes and header-less files; a chain of 24 classes (every request walks the whole chain)"""
+    for odd in ("ne", "nem", "neb", "nec", "nebclmr", "d", "xd", "xud", "dcm"):
+        for us in ("aQa", "aQa+aGhost", "aGhost+aQa"):
+            fs = ["aQa:-:m1+f1:%s:%s" % ("aQb" if "e" not in odd else "-", odd),
+                  "aQb:aQa:m1:%s:xu" % us,
+                  "aQc:-:f1:%s:nxu" % us,
+                  "aQd:aQb:m2:-:-"]
+            for order in ((0, 1, 2, 3), (3, 2, 1, 0), (1, 0, 3, 2)):
+                cases.append("lock %s %s" % (",".join(fs), ",".join("%s@%d" % (k, i) for i in order for k in KINDS)))
+                ctx.count("empty files / modules as used entity and parent (deterministic)")
+    depth = 24
+    for top in ("-", "aMissing", "aD00", "aD%02d" % (depth - 1)):       # a root, a missing parent, a self parent, one big cycle
+        fs = ["aD%02d:%s:%s:%s:%s" % (i, ("aD%02d" % (i - 1)) if i else top, "m1" if i % 5 == 0 else "-", "aGhost" if i == depth - 1 else "-", "xu" if i == depth - 1 else "-")
+              for i in range(depth)]
+        for at in (depth - 1, 0):
+            cases.append("lock %s %s" % (",".join(fs), ",".join("%s@%d" % (k, at) for k in KINDS)))
+            ctx.count("chain of %d classes (deterministic)" % depth)
+
+
+def ghost_uses(case):
+    """the uses entries of the case that name no file of the workspace"""
+    files = [f.split(":") for f in case.split()[1].split(",")]
+    stems = {w[0].upper() for w in files}
+    return [u for w in files if len(w) > 3 and w[3] != "-" for u in w[3].split("+") if u.upper() not in stems]
+
+
 def gen_cases(ctx):
     cases = []
     corpus = os.path.join(core.VERIF, "corpus", "C14", "cases.txt")
@@ -124,6 +221,17 @@ def gen_cases(ctx):
         hrest = hcases[120:]
     else:
         hrest = []
+    # then the uses lists that name entities without a file (first wave: FIRST_GHOSTS of them)
+    ng = len(cases)
+    gen_ghosts(ctx, cases)
+    gcases = cases[ng:]
+    rng.shuffle(gcases)
+    cases[ng:] = gcases[:FIRST_GHOSTS]
+    hrest += gcases[FIRST_GHOSTS:]
+    no = len(cases)
+    gen_odd_files(ctx, cases)
+    hrest += cases[no:]
+    del cases[no:]
     if quick:
         # every parent assignment over 1..3 classes, both analysis orders, one random uses-graph each
         for n in (1, 2, 3):
@@ -169,7 +277,7 @@ def shape(case):
     par = {}
     for f in files:
         w = f.split(":")
-        if w[1] != "-" and "n" not in (w[4] if len(w) > 4 else ""):
+        if w[1] != "-" and not (set("nd") & set(w[4] if len(w) > 4 else "")):
             par[w[0].upper()] = w[1].upper()
     selfp = any(k == v for k, v in par.items())
     cyc = False
@@ -222,6 +330,9 @@ def classify(case, h):
                 continue
             if res == "deadlocks":
                 k = "deadlock-self-parent" if selfp and not cyc else ("deadlock-mutual-parent" if cyc else "deadlock")
+            elif res == "spins" and ghost_uses(case) and not (req.startswith("hier") and (selfp or cyc)):
+                # a busy loop (no stack growth): the shape that has one is the uses list with an entry that cannot be resolved
+                k = "spins-uses-entity-without-file"
             elif res.startswith("crash") or res == "spins":
                 # the walks over cyclic parents belong to the hierarchy requests; an analysis that never ends shows in any request
                 hlc = headerless_shape(case)[1]
@@ -249,11 +360,15 @@ WHAT = {
     "deadlock": "a request blocks forever",
     "stack-overflow-cyclic-parents": "a member hierarchy request over cyclic parents recurses without end (the process aborts)",
     "stack-overflow-headerless-uses-cycle": "files without class / module header that use each other (or themselves) are analysed again and again: the request recurses without end (the process aborts)",
+    "spins-uses-entity-without-file": "a request on a file whose uses list names an entity without a file never returns (the thread stays busy)",
     "crash": "the process died during a request",
     "panic": "a request panicked",
     "request-timeout": "a request did not finish within the overall deadline",
     "lock-left-held": "a lock is left held: a second request on the same manager blocks / a table, document or entity mutex cannot be taken",
 }
+
+
+FIRST_GHOSTS = 48
 
 
 def run_sharded(ctx, cases, nshards=16):
@@ -281,7 +396,7 @@ def run(ctx):
     ctx.assumptions += [
         "'bounded time' is measured (deadline %s ms per request, confirmed blocked via /proc); the theorems give termination with all locks released on the model" % os.environ.get("VERIF_LOCK_DEADLINE_MS", "1500"),
         "requests run one at a time on a fresh manager per case (concurrent requests are C03's subject)",
-        "file stem = class name; workspaces are the generator's (<= 4 files, each a class or a file without class header, + optional bare file without a class; members m1 m2 f1, uses over <= 4 entities incl. self-use, unknown types, method bodies)",
+        "file stem = class name; workspaces are the generator's (<= 4 files — 24 in the chain cases —, each a class, a module, a file without class header or an empty file, + optional bare file without a class; members m1 m2 f1, uses over <= 4 entities incl. self-use and over entities without a file, unknown types, method bodies); what stands above the header, the encoding, the directory and the extension's letter case change no declaration (the model ignores these flags)",
     ]
     if ctx.replay:
         return replay(ctx)
@@ -293,7 +408,7 @@ def run(ctx):
     ctx.log("%d cases (%d corpus)" % (len(cases), ncorpus))
     # a hang costs its deadline, so (1) use every core even for few cases, (2) run a first wave and stop
     # there if the property is already violated (the verdict and the replay do not get better by waiting)
-    first = ncorpus + 160
+    first = ncorpus + 120 + FIRST_GHOSTS + 40
     impl = run_sharded(ctx, cases[:first])
     early = any(classify(c, h) for c, h in zip(cases, impl))
     if early:
@@ -316,6 +431,8 @@ def run(ctx):
     ctx.dist["workspaces with a parent cycle of length >= 2"] = sum(1 for c in cases if shape(c)[1])
     ctx.dist["workspaces with a header-less file that has a uses list"] = sum(1 for c in cases if headerless_shape(c)[0])
     ctx.dist["workspaces with a uses cycle among header-less files (incl. self-use)"] = sum(1 for c in cases if headerless_shape(c)[1])
+    ctx.dist["workspaces with a uses entry that names no file"] = sum(1 for c in cases if ghost_uses(c))
+    ctx.dist["workspaces with a dressed header / other encoding (flags b c a l m r)"] = sum(1 for c in cases if any(set(f.split(":")[4] if f.count(":") >= 4 else "") & set(DRESS) for f in c.split()[1].split(",")))
     ctx.samples = [{"case": cases[i], "harness": impl[i]} for i in (0, ncorpus, len(cases) - 1) if 0 <= i < len(cases)]
     return ctx.finish(rule=RULE, extra={"exhaustive": ctx.tier == "thorough", "exhaustive_space":
                                         "thorough: all 6^4 parent assignments over 4 classes x all 64 uses-graphs over 3 entities x both analysis orders, and everything over 1..3 classes; quick: all assignments over 1..4 classes (three random uses-graphs / orders each for 4) + all 64 uses-graphs"})
@@ -325,6 +442,11 @@ RULE = ("cases = corpus (self parent in every letter case, mutual parents, longe
         "header-less files that use each other / themselves / classes) "
         "+ parent assignments (each class: none, any class incl. itself, a missing class; parent references in random letter case) x uses-graphs x analysis order (requests on the files "
         "forwards or backwards); every case issues diag, def, comp, hier, hierx on every file, each on its own thread with a deadline. "
+        "uses lists that name entities WITHOUT a file at every position (first, middle, last, only, twice in two spellings) x flags (body with unresolvable names, unknown types, header-less) x parents "
+        "(none, a class, a missing class) deterministically, + random workspaces over real entities and ghosts, + ghosts put into one uses list in five of all other cases; def / hier also ask about "
+        "the names in the uses line, the types of the locals and the undeclared names, comp also after `o.` for a local whose type has no file; "
+        "empty files (zero bytes, byte order mark / blank lines / comments only) and `module` headers as used entity, parent and user; chains of 24 classes (rooted, missing parent, one big cycle); "
+        "one file in four dressed (blank lines / comment / annotation above the header, Latin-1 bytes, byte order mark, CRLF, sub-directory, .GOD). "
         "header-less files (flag n: no class line, but uses list, members, unknown types, bodies): every uses-graph incl. self-use over 2 and 3 files x header-less subsets, "
         "and over 3 files used by a class. distinct_nontrivial = distinct implementation outputs among workspaces that have a self parent, a parent cycle or a header-less file with a uses list")
 
